@@ -18,9 +18,9 @@ enum { A_TRACK, A_TAGGED, A_ARENA };
 enum { K_INT, K_BSTR, K_TSTR, K_DARR, K_IARR, K_DMAP, K_IMAP, K_TAG, K_IBS, K_ITS, K_FLOAT, K_NKINDS };
 static const char* const kind_names[K_NKINDS] = {"int", "bytes", "text", "def-array", "indef-array", "def-map", "indef-map", "tag", "chunked-bytes", "chunked-text", "float"};
 enum { OP_NEW = 1, OP_INCREF, OP_DECREF, OP_IDECREF, OP_PUSH, OP_SET, OP_REPLACE, OP_GET, OP_MAPADD, OP_ADDCHUNK, OP_TAGSET, OP_TAGITEM,
-       OP_BUILDTAG, OP_COPY, OP_LOAD, OP_SERIALIZE, OP_MOVEPUSH, OP_DESCRIBE, OP_REHANDLE, OP_DETACH, OP_NOPS };
+       OP_BUILDTAG, OP_COPY, OP_LOAD, OP_SERIALIZE, OP_MOVEPUSH, OP_DESCRIBE, OP_REHANDLE, OP_DETACH, OP_SETVALUE, OP_NOPS };
 static const char* const op_names[OP_NOPS] = {"?", "new", "incref", "decref", "intermediate_decref", "push", "set", "replace", "get", "map_add", "add_chunk",
-  "tag_set_item", "tag_item", "build_tag", "copy", "load", "serialize", "push(move)", "describe", "set_handle(same block)", "detach_handle"};
+  "tag_set_item", "tag_item", "build_tag", "copy", "load", "serialize", "push(move)", "describe", "set_handle(same block)", "detach_handle", "set_value"};
 
 struct mnode { uint8_t alive, kind, cap, nmem; int8_t mem[MAXMEM]; };
 struct mstate { struct mnode n[MAXN]; int nn; int8_t slot[NSLOT]; uint8_t hold[NSLOT]; };
@@ -239,6 +239,9 @@ static int m_apply(struct mstate* m, struct op o, bool allow_oob) {
     case OP_SERIALIZE: case OP_DESCRIBE:
       if (a < 0 || !m_complete(m, a)) return -1;
       return 1;
+    case OP_SETVALUE: /* a value setter (set_uint*, mark_*, set_bool, set_ctrl, set_float*) on a scalar, however many references it has: item graph unchanged */
+      if (a < 0 || (m->n[a].kind != K_INT && m->n[a].kind != K_FLOAT)) return -1;
+      return 1;
     case OP_DETACH: /* the client takes the string's block back (set_handle(NULL, 0)) and releases it itself: item graph unchanged */
     case OP_REHANDLE: /* re-attach the block the string already owns (in-place edit / truncation): ownership unchanged */
       if (a < 0 || (m->n[a].kind != K_BSTR && m->n[a].kind != K_TSTR)) return -1;
@@ -254,12 +257,20 @@ static void* freed[256];
 static int nfreed;
 static void free_hook(void* p, size_t size) { (void)size; if (nfreed < 256) freed[nfreed++] = p; }
 
-static uint64_t g_new_strings, g_hist_salt;
+static uint64_t g_new_strings, g_hist_salt, g_new_scalars, g_setvalue_calls, g_setvalue_shared;
 static cbor_item_t* r_new(int kind, int cap) {
   cbor_item_t* it = NULL;
   vh_in_lib = 1;
   switch (kind) {
-    case K_INT: it = cbor_build_uint8(7); break;
+    /* "int" stands for any scalar that is not a float: integers of both signs and every width, booleans, other simple values */
+    case K_INT: switch ((g_new_scalars++ + g_hist_salt) % 7) {
+        case 1: it = cbor_build_bool(true); break;
+        case 2: it = cbor_build_negint16(300); break;
+        case 3: it = cbor_new_undef(); break;
+        case 4: it = cbor_build_uint64(1ull << 40); break;
+        case 5: it = cbor_new_null(); break;
+        default: it = cbor_build_uint8(7);
+      } break;
     case K_FLOAT: it = cbor_build_float4(1.5f); break;
     /* one string in four is created without ever being given a buffer: a valid empty string (handle NULL, length 0) */
     case K_BSTR: it = ((g_new_strings++ + g_hist_salt) & 3) == 3 ? cbor_new_definite_bytestring() : cbor_build_bytestring((const unsigned char*)"abcdefgh", 8); break;
@@ -440,6 +451,30 @@ static int r_apply(const struct mstate* pre, const struct mstate* post, struct o
        * allocations for stdio, so cbor_describe can run inside the bypass detector like everything else */
       LIB(cbor_describe(rslot[o.a], devnull)); LIBEND();
       return 1;
+    case OP_SETVALUE: {
+      cbor_item_t* it = rslot[o.a];
+      g_setvalue_calls++;
+      if (cbor_refcount(it) > 1) g_setvalue_shared++;
+      vh_in_lib = 1;
+      if (cbor_is_int(it)) {
+        if (o.b & 1) { if (cbor_isa_uint(it)) cbor_mark_negint(it); else cbor_mark_uint(it); }
+        else switch (cbor_int_get_width(it)) {
+          case CBOR_INT_8: cbor_set_uint8(it, (uint8_t)(cbor_get_uint8(it) + 1 + o.b)); break;
+          case CBOR_INT_16: cbor_set_uint16(it, (uint16_t)(cbor_get_uint16(it) * 3 + o.b)); break;
+          case CBOR_INT_32: cbor_set_uint32(it, cbor_get_uint32(it) ^ 0x10001u); break;
+          default: cbor_set_uint64(it, cbor_get_uint64(it) + 0x100000001ull);
+        }
+      } else if (cbor_isa_float_ctrl(it)) {
+        if (cbor_float_ctrl_is_ctrl(it)) { if (cbor_is_bool(it)) cbor_set_bool(it, (o.b & 2) ? !cbor_get_bool(it) : cbor_get_bool(it)); else cbor_set_ctrl(it, cbor_ctrl_value(it) == 22 ? 23 : 22); } /* null <-> undefined: values the decoder yields, so encodings stay loadable */
+        else switch (cbor_float_get_width(it)) {
+          case CBOR_FLOAT_16: cbor_set_float2(it, 0.5f * (float)(1 + o.b)); break;
+          case CBOR_FLOAT_32: cbor_set_float4(it, -cbor_float_get_float4(it) + (float)o.b); break;
+          default: cbor_set_float8(it, -cbor_float_get_float8(it) * 3.0); break;
+        }
+      }
+      vh_in_lib = 0;
+      return 1;
+    }
     case OP_DETACH: {
       /* set_handle does not release the block an item already owns; handing it NULL leaves the old block with the client,
        * who releases it through the installed allocator — the item must forget it */
@@ -492,7 +527,7 @@ static void render_history(const struct op* ops, int n, struct vh_buf* out) {
     o.code &= 0x3f;
     switch (o.code) {
       case OP_NEW: vb_printf(out, "s%d=new(%s%s%.0d)", o.a, kind_names[o.b < K_NKINDS ? o.b : 0], (o.b == K_DARR || o.b == K_DMAP) ? " cap " : "", (o.b == K_DARR || o.b == K_DMAP) ? o.c : 0); if ((o.b == K_DARR || o.b == K_DMAP) && o.c == 0) vb_printf(out, "0"); break;
-      case OP_INCREF: case OP_DECREF: case OP_IDECREF: case OP_SERIALIZE: case OP_DESCRIBE: case OP_REHANDLE: case OP_DETACH: vb_printf(out, "%s(s%d)", op_names[o.code], o.a); break;
+      case OP_INCREF: case OP_DECREF: case OP_IDECREF: case OP_SERIALIZE: case OP_DESCRIBE: case OP_REHANDLE: case OP_DETACH: case OP_SETVALUE: vb_printf(out, "%s(s%d)", op_names[o.code], o.a); break;
       case OP_PUSH: case OP_MOVEPUSH: case OP_ADDCHUNK: vb_printf(out, "%s(s%d, s%d)", op_names[o.code], o.a, o.b); break;
       case OP_SET: case OP_REPLACE: if (o.b >= 200) vb_printf(out, "%s(s%d, %zu, s%d)", op_names[o.code], o.a, huge_index(o.b), o.c); else vb_printf(out, "%s(s%d, %d, s%d)", op_names[o.code], o.a, o.b, o.c); break;
       case OP_GET: if (o.b >= 200) vb_printf(out, "s%d=get(s%d, %zu)", o.c, o.a, huge_index(o.b)); else vb_printf(out, "s%d=get(s%d, %d)", o.c, o.a, o.b); break;
@@ -745,6 +780,7 @@ static int gen_ops(const struct mstate* m, struct op* out, int maxout, int nslot
     if (m->hold[s] > 1 || m_indeg(m, node) > 0) ADD(OP_IDECREF, s, 0, 0);
     ADD(OP_SERIALIZE, s, 0, 0);
     if (kind == K_BSTR || kind == K_TSTR) { ADD(OP_REHANDLE, s, 1, 0); ADD(OP_REHANDLE, s, 3, 0); ADD(OP_DETACH, s, 0, 0); }
+    if ((kind == K_INT || kind == K_FLOAT) && (m->hold[s] > 1 || m_indeg(m, node) > 0)) ADD(OP_SETVALUE, s, 2, 0); /* a value setter on a scalar someone else refers to as well */
     if (lowest_empty >= 0) { ADD(OP_COPY, s, lowest_empty, 0); ADD(OP_BUILDTAG, s, lowest_empty, 0); }
     for (int x = 0; x < nslots; x++) {
       if (m->slot[x] < 0) continue;
@@ -808,7 +844,8 @@ static void random_history(uint64_t u, int maxlen, bool allow_oob) {
     else if (pick < 84) { o.code = OP_LOAD; o.b = (uint8_t)vh_below(&r, NLOADS); }
     else if (pick < 87) o.code = OP_SERIALIZE;
     else if (pick < 88) { int w = (int)vh_below(&r, 4); o.code = w == 0 ? OP_DESCRIBE : w == 1 ? OP_DETACH : OP_REHANDLE; o.b = (uint8_t)vh_below(&r, 8); }
-    else if (pick < 92) o.code = OP_INCREF;
+    else if (pick < 90) o.code = OP_INCREF;
+    else if (pick < 92) { o.code = OP_SETVALUE; o.b = (uint8_t)vh_below(&r, 8); }
     else if (pick < 98) o.code = OP_DECREF;
     else o.code = OP_IDECREF;
     struct mstate next = m;
@@ -1060,6 +1097,21 @@ void* __wrap_malloc(size_t n) { if (vh_in_lib) bypass("malloc"); return __real_m
 void* __wrap_calloc(size_t a, size_t b) { if (vh_in_lib) bypass("calloc"); return __real_calloc(a, b); }
 void* __wrap_realloc(void* p, size_t n) { if (vh_in_lib) bypass("realloc"); return __real_realloc(p, n); }
 void __wrap_free(void* p) { if (vh_in_lib && p) bypass("free"); __real_free(p); }
+/* the rest of the C library's allocating family */
+void* __real_reallocarray(void*, size_t, size_t);
+int __real_posix_memalign(void**, size_t, size_t);
+void* __real_aligned_alloc(size_t, size_t);
+void* __real_memalign(size_t, size_t);
+void* __real_valloc(size_t);
+char* __real_strdup(const char*);
+char* __real_strndup(const char*, size_t);
+void* __wrap_reallocarray(void* p, size_t a, size_t b) { if (vh_in_lib) bypass("reallocarray"); return __real_reallocarray(p, a, b); }
+int __wrap_posix_memalign(void** r, size_t a, size_t n) { if (vh_in_lib) bypass("posix_memalign"); return __real_posix_memalign(r, a, n); }
+void* __wrap_aligned_alloc(size_t a, size_t n) { if (vh_in_lib) bypass("aligned_alloc"); return __real_aligned_alloc(a, n); }
+void* __wrap_memalign(size_t a, size_t n) { if (vh_in_lib) bypass("memalign"); return __real_memalign(a, n); }
+void* __wrap_valloc(size_t n) { if (vh_in_lib) bypass("valloc"); return __real_valloc(n); }
+char* __wrap_strdup(const char* z) { if (vh_in_lib) bypass("strdup"); return __real_strdup(z); }
+char* __wrap_strndup(const char* z, size_t n) { if (vh_in_lib) bypass("strndup"); return __real_strndup(z, n); }
 #endif
 
 static void hist_run(void) {
@@ -1251,6 +1303,7 @@ static void hist_run(void) {
     vh_count_dyn("ops_expected_to_be_refused", g_refused_ops);
     vh_count_dyn("string_blocks_detached_and_released_by_the_client", g_detaches);
     vh_count_dyn("buffers_attached_late_to_handle_less_strings", g_late_attaches);
+    vh_count_dyn("value_setter_calls", g_setvalue_calls); vh_count_dyn("value_setter_calls_on_items_with_several_references", g_setvalue_shared);
     vh_count_dyn("calls_with_arguments_lent_through_cbor_move", g_lent_calls);
     vh_count_dyn("calls_with_lent_arguments_that_were_refused", g_lent_refused);
     vh_count_dyn("ops_in_which_an_allocation_refusal_fired", g_refusals_hit);
